@@ -149,6 +149,20 @@ def S6():
                      ["r1", "r2"])
 
 
+def S8():
+    """several results sharing one input, each with its own same-typed anonymous constant"""
+    for op in ("*", "+", "-", ">"):
+        for t in ("signal-C", "signal-A"):
+            yield mk("S8", [("decl", "Signal", "r1", B(op, ("lit", t, I(2)), V("a"))),
+                            ("decl", "Signal", "r2", B(op, ("lit", t, I(3)), V("a")))], ["r1", "r2"])
+            yield mk("S8", [("decl", "Signal", "r1", B(op, V("a"), ("lit", t, I(2)))),
+                            ("decl", "Signal", "r2", B(op, V("c"), ("lit", t, I(3))))], ["r1", "r2"])
+    yield mk("S8", [("decl", "Signal", "k1", ("lit", "signal-C", I(2))), ("decl", "Signal", "k2", ("lit", "signal-C", I(3))),
+                    ("decl", "Signal", "r1", B("*", V("k1"), V("a"))), ("decl", "Signal", "r2", B("*", V("k2"), V("a")))], ["r1", "r2"])
+    yield mk("S8", [("decl", "Signal", "r1", B("*", V("c"), V("a"))), ("decl", "Signal", "r2", B("*", V("d"), V("a"))),
+                    ("decl", "Signal", "r3", B("-", V("a"), V("c")))], ["r1", "r2", "r3"])
+
+
 def S7():
     A, C, Ii = V("a"), V("c"), V("i")
     progs = [
@@ -205,9 +219,10 @@ class C01(core.Check):
         out += list(S5(full=(tier == "thorough")))
         out += list(S6())
         out += list(S7())
+        out += list(S8())
         if tier == "thorough":
             # everything again without optimisation
-            out += [dict(c, opts={"optimize": False}) for c in list(out) if c["family"] in ("S1", "S2", "S4", "S6", "S7")]
+            out += [dict(c, opts={"optimize": False}) for c in list(out) if c["family"] in ("S1", "S2", "S4", "S6", "S7", "S8")]
         seen = set()
         uniq = []
         for c in out:
